@@ -580,13 +580,16 @@ def ctx678(ctx: Ctx) -> None:
             a, b = method_pair(inner[0].body), method_pair(inner[0].orelse)
             cond = norm(inner[0].test)
             at = [f"isinstance({cb_v}, types.MethodType)", f"{cb_v}.__func__.__name__ in ('__exit__', '__aexit__')"]
+            ENTER, PUSH = [("enter_context", "enter_async_context")], [("push", "push_async_exit")]
+            swapped = (a == PUSH and b == ENTER)       # the same classification with the test negated and the arms exchanged
+            spec = (lambda e: not ((not e[at[0]]) or e[at[1]])) if swapped else (lambda e: (not e[at[0]]) or e[at[1]])
             try:
-                okc, _ = equivalent(inner[0].test, lambda e: (not e[at[0]]) or e[at[1]], at)
+                okc, _ = equivalent(inner[0].test, spec, at)
             except AnalysisError:
                 okc = False
             # short-circuit order matters: __func__ may only be read once the callback is known to be a MethodType
-            okorder = isinstance(inner[0].test, ast.BoolOp) and isinstance(inner[0].test.op, ast.Or) and "isinstance(" in norm(inner[0].test.values[0])
-            okb = a == [("enter_context", "enter_async_context")] and b == [("push", "push_async_exit")] and okc and okorder
+            okorder = isinstance(inner[0].test, ast.BoolOp) and "isinstance(" in norm(inner[0].test.values[0])
+            okb = ((a == ENTER and b == PUSH) or swapped) and okc and okorder
         if okb:
             ctx.R.ok("CTX-6", "bound __exit__/__aexit__ -> enter_context|enter_async_context; other bound method -> push|push_async_exit")
         else:
@@ -690,7 +693,8 @@ def ctx678(ctx: Ctx) -> None:
         ctx.R.ok("CTX-7", "context.children is assigned once, after the loop")
     else:
         ctx.R.fail("CTX-7", mod, fn, "context.children must be assigned the collected list once, after the loop", construct="context.children assignment")
-    init = [s for s in fn.body if isinstance(s, ast.Assign) and norm(s.targets[0]) == "children" and norm(s.value) == "[]"]
+    init = [s for s in fn.body if (isinstance(s, ast.Assign) and norm(s.targets[0]) == "children" and norm(s.value) == "[]")
+            or (isinstance(s, ast.AnnAssign) and norm(s.target) == "children" and s.value is not None and norm(s.value) == "[]")]
     if not init:
         ctx.R.fail("CTX-7", mod, fn, "children must start as an empty list", construct="children = []")
     # GCM attribute names
